@@ -176,6 +176,26 @@ def gen(rng, tier):
     return out
 
 
+_SPEC_ROWS = {}
+
+
+def oracle(c, real, model):
+    """stream-type rows are judged against the Spec code lists (st.spec.row, Coq-extracted), not against the model;
+    everything else: projected equality with the model"""
+    f = c.line.split()
+    if f[0] in ("st.row", "st.es") and c.decides:
+        if not _SPEC_ROWS:
+            for code, r in enumerate(vlib.run_model(["st.spec.row %d" % k for k in range(256)])):
+                _SPEC_ROWS[code] = r
+        want = _SPEC_ROWS.get(int(f[1]))
+        if real != want:
+            return "row %s differs from the property's code lists %s" % (real, want)
+        if model != want:
+            return "MODEL row %s differs from the Spec %s (theorems C20_*_iff no longer transport)" % (model, want)
+        return ""
+    return None
+
+
 def case_of_line(line, kind):
     f = line.split()
     if f[0] == "st.desc":
